@@ -55,11 +55,13 @@ class StreamMachine(Lane):
             elif k == 'I': items.append(('I', C(1, 25, [T(2, 0, [z3.BitVec(f'i{i}', 8)])]), ctl))
             elif k == 'D': items.append(('D', z3.BitVec('rc', 32), ctl))
             else: items.append(('X', None, None))
-        return {'script': sc, 'calls': calls, 'items': items, 'adapter': self.adapters[c.choose(len(self.adapters), 'adapter')]}
+        # the connection may already be gone when the caller reads what the driver had queued for it
+        return {'script': sc, 'calls': calls, 'items': items, 'adapter': self.adapters[c.choose(len(self.adapters), 'adapter')], 'closed': bool(c.choose(2, 'conn_closed'))}
 
     def mk_stream(self, d):
         c = self.c
         ld, tx, stx = mk_handle(c)
+        tx.closed = bool(d.get('closed'))
         itx, irx = channel('items')
         q = []
         for k, v, ctl in d['items']:
@@ -194,8 +196,9 @@ class StreamMachine(Lane):
             if k in kinds: replies.append({'id': 'req', 'op': kinds[k]})
             elif k == 'D': replies.append({'id': 'req', 'op': DONE_REF})
             else: close = True
-        steps = [BIND, stream_start(['EntriesOnly'] if cd['adapter'] == 'EntriesOnly' else [])] + [{'do': self.callname(k)} for k in cd['calls']]
-        case = script(steps, [BIND_OK, {'replies': replies, 'close_after': close}])
+        gone = bool(cd.get('closed')) and not close
+        steps = [BIND, stream_start(['EntriesOnly'] if cd['adapter'] == 'EntriesOnly' else [])] + ([{'do': 'sleep', 'ms': 150}] if gone else []) + [{'do': self.callname(k)} for k in cd['calls']]
+        case = script(steps, [BIND_OK, {'replies': replies, 'close_after': close or gone}])
         return ('stream', 'stream', case)
 
     def replay_by_role(self, cd, obname, out, model):
@@ -206,7 +209,7 @@ class StreamMachine(Lane):
         if nj['outcome'] != 'ok': raise RuntimeError('replay failed: ' + json.dumps(nj)[:200])
         v = nj['value']
         ref = self.reference({'items': [(k, None, None) for k in cd['script']], 'calls': cd['calls'], 'adapter': cd['adapter'], 'script': cd['script']})
-        got = [s for s in v['steps'][2:]]
+        got = [s for s in v['steps'][2:] if s['do'] != 'sleep']
         for i, (s_, (k, want)) in enumerate(zip(got, ref)):
             r = s_['r']; bad = None
             if isinstance(r, dict) and 'panic' in r: bad = f'{s_["do"]}() panicked: {r["panic"]}'
@@ -236,7 +239,7 @@ class StreamMachine(Lane):
         return res
 
     def in_summary(self, d, model=None):
-        return {'adapter': d['adapter'], 'script': d['script'], 'calls': ''.join(d['calls'])}
+        return {'adapter': d['adapter'], 'script': d['script'], 'calls': ''.join(d['calls']), 'closed': d.get('closed')}
 
     def regions(self, d, out):
         return [str(d['adapter'])]
@@ -459,11 +462,13 @@ class TimedStream(Lane):
     def inputs(self):
         c = self.c
         n = 1 + c.choose(self.maxn, 'ncalls')
-        return {'timed': bool(c.choose(2, 'timed')), 'answers': [['item', 'done', 'elapsed', 'closed'][c.choose(4, f'ans{i}')] for i in range(n)], 'finish': bool(c.choose(2, 'finish'))}
+        return {'timed': bool(c.choose(2, 'timed')), 'answers': [['item', 'done', 'elapsed', 'closed'][c.choose(4, f'ans{i}')] for i in range(n)], 'finish': bool(c.choose(2, 'finish')),
+                'conn_gone': bool(c.choose(2, 'conn_gone'))}        # the driver may already have exited while its last deliveries are still queued
 
     def execute(self, d):
         c = self.c
         ld, tx, stx = mk_handle(c)
+        tx.closed = bool(d.get('conn_gone'))
         itx, irx = channel('items')
         st = StructV('SearchStream', [('ldap', ld), ('rx', Some(irx)), ('state', EnumV('StreamState', 'Active')), ('adapters', VecV([])), ('ax', z3.BitVecVal(0, 64)),
                                       ('timeout', Some(StructV('Duration', [('secs', z3.BitVecVal(1, 64)), ('nanos', z3.BitVecVal(0, 32))])) if d['timed'] else NONE()), ('res', NONE())])
@@ -524,6 +529,19 @@ class TimedStream(Lane):
 
     def replay_by_role(self, cd, obname, out, model):
         answers = list(cd['answers'])
+        if cd.get('conn_gone') and ('is delivered' in obname or 'Done ends the stream' in obname):
+            # the server answers the search completely and hangs up before the caller reads
+            k = sum(1 for a in answers if a == 'item')
+            case = script([BIND, stream_start([]), {'do': 'sleep', 'ms': 150}] + [{'do': 'next'}] * (k + 1) + [{'do': 'finish'}],
+                          [BIND_OK, {'replies': [{'id': 'req', 'op': ENTRY}] * k + [{'id': 'req', 'op': okres(5, 3)}], 'close_after': True}])
+            v = native([case])[0]['value']
+            nx = [s_['r'] for s_ in v['steps'] if s_['do'] == 'next']
+            got = sum(1 for r in nx if isinstance(r, dict) and r.get('ok'))
+            fin = step(v, 'finish')
+            bad = None
+            if got != k: bad = f'{got} of {k} delivered entries were returned after the server closed the connection: {json.dumps(nx)[:120]}'
+            elif not (isinstance(fin, dict) and fin.get('ok', {}).get('rc') == 3): bad = f'the delivered final result was not returned: {json.dumps(fin)[:100]}'
+            return bool(bad), 'delivered-items-lost-on-close', f'search answered completely, then connection closed: {bad}' if bad else None, case, {'native': v['steps']}
         if 'elapsed' not in answers or not cd['timed']:
             # a stream that fails (or is simply abandoned) while the search is still open at the server, then finish():
             # natively the failure comes from an adapter rejecting an item after `k` delivered ones
